@@ -864,6 +864,9 @@ func (s *State) sliceElems(sl Slice) []Value {
 	if s.AccessLog != nil {
 		s.AccessLog.note(s, Ptr{Obj: sl.Obj, Path: sl.Path}, false)
 	}
+	if o.Poison {
+		s.notePoison(Ptr{Obj: sl.Obj}, o)
+	}
 	arr := s.navigate(o.V, sl.Path).(*Array)
 	return arr.E[sl.Off : sl.Off+sl.Len]
 }
